@@ -5,6 +5,10 @@ package main
 // again after Commit (on the committed store) every invariant route registered
 // with the crisis keeper is evaluated individually with panic capture.
 // ORACLE: no route reports "broken", no ABCI call panics.
+// The histories deposit and fund the community pool in several denominations and let proposals end
+// vetoed / without quorum / below the minimum deposit with the burn switches on, so that the redirected
+// burn (x/bank BurnCoins: gov deposits go to the distribution account AND the community pool) meets coin
+// lists; which proposals ended how and which denominations were new to the pool is recorded per case.
 
 import (
 	"encoding/json"
@@ -12,7 +16,9 @@ import (
 	"sort"
 	"strings"
 
+	sdkmath "cosmossdk.io/math"
 	sdk "github.com/cosmos/cosmos-sdk/types"
+	govv1 "github.com/cosmos/cosmos-sdk/x/gov/types/v1"
 	"github.com/ethereum/go-ethereum/accounts/abi"
 
 	"github.com/haqq-network/haqq/contracts"
@@ -60,6 +66,9 @@ type invObs struct {
 	OKByKind  map[string]int `json:"ok_by_kind"`
 	ErrByKind map[string]int `json:"err_by_kind"`
 	ErrSample map[string]string `json:"err_sample,omitempty"`
+	GovEnds   map[string]int `json:"gov_proposals_ended,omitempty"` // outcome (+ what happened to the deposit) -> count
+	Burned    []string       `json:"gov_deposits_burned,omitempty"` // "height h proposal p (outcome): coins", redirected to the community pool
+	PoolNew   []string       `json:"community_pool_new_denoms,omitempty"`
 	ValUpd    int            `json:"validator_updates"`
 	VmFailed  int            `json:"eth_txs_with_vm_error"`
 	Supply    []string       `json:"final_supply"`
@@ -95,11 +104,117 @@ func summarise(h *histRun, o *invObs) {
 	}
 }
 
+// govEnding classifies, on a branch of the deliver state just before the EndBlockers run, the proposals
+// whose deposit or voting period ends in this block: outcome and whether the deposit is burned (on Haqq:
+// redirected to the community pool) or refunded.  Only used to describe the history (tags, observation).
+func govEnding(rep *Replica, height int64, obs *invObs, tags map[string]bool) {
+	defer func() { _ = recover() }()
+	a := rep.App
+	ctx, _ := rep.ctx().CacheContext()
+	now := ctx.BlockHeader().Time
+	params := a.GovKeeper.GetParams(ctx)
+	note := func(p govv1.Proposal, outcome string, burn bool) {
+		what := "refunded"
+		if burn {
+			what = "burned"
+		}
+		dep := sdk.NewCoins(p.TotalDeposit...)
+		key := outcome + ":deposit-" + what
+		obs.GovEnds[key]++
+		tags["gov-end:"+key] = true
+		if burn && !dep.IsZero() {
+			obs.Burned = append(obs.Burned, fmt.Sprintf("height %d proposal %d (%s): %s", height, p.Id, outcome, dep))
+			if len(dep) > 1 {
+				tags["gov-deposit-burned:several-denominations"] = true
+			}
+			if len(dep) > 0 && dep.AmountOf(bondDenomOf(rep, ctx)).IsZero() {
+				tags["gov-deposit-burned:without-native-coin"] = true
+			}
+			if len(dep) == 1 && !dep.AmountOf(bondDenomOf(rep, ctx)).IsZero() {
+				tags["gov-deposit-burned:native-coin-only"] = true
+			}
+		}
+	}
+	a.GovKeeper.IterateInactiveProposalsQueue(ctx, now, func(p govv1.Proposal) bool {
+		note(p, "dropped", params.BurnProposalDepositPrevote)
+		return false
+	})
+	var active []govv1.Proposal
+	a.GovKeeper.IterateActiveProposalsQueue(ctx, now, func(p govv1.Proposal) bool {
+		active = append(active, p)
+		return false
+	})
+	bonded := a.StakingKeeper.TotalBondedTokens(ctx)
+	for _, p := range active {
+		passes, burn, tr := a.GovKeeper.Tally(ctx, p)
+		outcome := "rejected"
+		total := sdkmath.ZeroInt()
+		for _, c := range []string{tr.YesCount, tr.AbstainCount, tr.NoCount, tr.NoWithVetoCount} {
+			total = total.Add(intA(c))
+		}
+		quorum, _ := sdk.NewDecFromStr(params.Quorum)
+		veto, _ := sdk.NewDecFromStr(params.VetoThreshold)
+		switch {
+		case passes:
+			outcome = "passed"
+		case bonded.IsZero() || sdk.NewDecFromInt(total).Quo(sdk.NewDecFromInt(bonded)).LT(quorum):
+			outcome = "no-quorum"
+		case total.Equal(intA(tr.AbstainCount)):
+			outcome = "rejected"
+		case sdk.NewDecFromInt(intA(tr.NoWithVetoCount)).Quo(sdk.NewDecFromInt(total)).GT(veto):
+			outcome = "vetoed"
+		}
+		note(p, outcome, burn)
+	}
+}
+
+func bondDenomOf(rep *Replica, ctx sdk.Context) string { return rep.App.StakingKeeper.BondDenom(ctx) }
+
+// newPoolDenoms: where the denominations that entered the community pool sort among those it held.
+func newPoolDenoms(before, after sdk.DecCoins) []string {
+	var out []string
+	for _, c := range after {
+		if !before.AmountOf(c.Denom).IsZero() || c.Amount.IsZero() {
+			continue
+		}
+		lower, higher := 0, 0
+		for _, b := range before {
+			if b.Denom < c.Denom {
+				lower++
+			} else {
+				higher++
+			}
+		}
+		where := "between"
+		switch {
+		case len(before) == 0:
+			where = "first"
+		case lower == 0:
+			where = "before"
+		case higher == 0:
+			where = "after"
+		}
+		out = append(out, where)
+	}
+	return out
+}
+
 func invRunCase(id string, in bhInput, gen *bhGenerator) Case {
 	h := newHistRun(in.Gen, repOpts{})
-	obs := invObs{}
+	obs := invObs{GovEnds: map[string]int{}}
+	xtags := map[string]bool{}
+	var poolBefore sdk.DecCoins
 	hooks := &stepHooks{
+		BeforeEndBlock: func(h *histRun, height int64) {
+			poolBefore = h.Rep.App.DistrKeeper.GetFeePoolCommunityCoins(h.Rep.ctx())
+			govEnding(h.Rep, height, &obs, xtags)
+		},
 		AfterEndBlock: func(h *histRun, height int64) {
+			// the only EndBlocker that adds to the community pool is governance burning deposits (redirected burn)
+			for _, w := range newPoolDenoms(poolBefore, h.Rep.App.DistrKeeper.GetFeePoolCommunityCoins(h.Rep.ctx())) {
+				obs.PoolNew = append(obs.PoolNew, fmt.Sprintf("height %d: redirected burn of a denomination new to the pool, sorts %s", height, w))
+				xtags["redirected-burn:new-pool-denom-sorts-"+w] = true
+			}
 			br, n := checkInvariants(h.Rep, h.Rep.ctx(), height, "after-endblock")
 			obs.Routes = n
 			obs.Checks += n
@@ -170,6 +285,12 @@ func invRunCase(id string, in bhInput, gen *bhGenerator) Case {
 	}
 	if obs.ValUpd > 0 {
 		c.Tags = append(c.Tags, "validator-set-changed")
+	}
+	for t := range xtags {
+		c.Tags = append(c.Tags, t)
+	}
+	if len(in.Gen.MinDep) > 0 {
+		c.Tags = append(c.Tags, "gov-min-deposit:several-denominations")
 	}
 	for _, b := range in.Blocks {
 		if len(b.Evidence) > 0 {
